@@ -1,5 +1,12 @@
 package protocol
 
+import (
+	"github.com/idena-network/idena-go/common"
+	"github.com/idena-network/idena-go/common/pushpull"
+	"github.com/idena-network/idena-go/verifhook/vsync"
+	"github.com/libp2p/go-libp2p-core/peer"
+)
+
 // VerifCodecs lists constructors of every wire type of this package that has a
 // ToBytes/FromBytes pair (verification build only).
 func VerifCodecs() map[string]func() interface{} {
@@ -12,4 +19,27 @@ func VerifCodecs() map[string]func() interface{} {
 		"protocol.disconnect":    func() interface{} { return new(disconnect) },
 		"protocol.blockRange":    func() interface{} { return new(blockRange) },
 	}
+}
+
+// ---- C20: push/pull driver
+
+// VerifNewPPM returns a manager with one entry holder registered under the tx push type.
+func VerifNewPPM(holder pushpull.Holder) *PushPullManager {
+	m := NewPushPullManager()
+	m.AddEntryHolder(pushTx, holder)
+	return m
+}
+
+// VerifAddPush is the announcement entry point (what handle() calls for a Push message).
+func (m *PushPullManager) VerifAddPush(p string, h common.Hash128) {
+	m.addPush(peer.ID(p), pushPullHash{Type: pushTx, Hash: h})
+}
+
+// VerifLoop runs the real forwarding loop for the holder (blocks forever).
+func (m *PushPullManager) VerifLoop(holder pushpull.Holder) { m.loop(pushTx, holder) }
+
+// VerifRecvRequest receives the next emitted pull request (cooperative wait under the scheduler).
+func (m *PushPullManager) VerifRecvRequest() (string, common.Hash128) {
+	r := vsync.Recv(m.requests).(pullRequest)
+	return string(r.peer), r.hash.Hash
 }
